@@ -69,6 +69,8 @@ def classify_site(call: ast.Call, fn: ast.FunctionDef) -> tuple[bool, str]:
             return True, "accumulated text (checked by L2)"
         return False, f"start/end are not (line, column) pairs: {norm_stmt(vals['start'])}, {norm_stmt(vals['end'])}"
     (sl, sc), (el, ec) = sp, ep
+    # `state.max` is `len(state.line)` (set together with the line in move_next_line; checked by T1): one spelling
+    sc, ec = sc.replace("state.max", "len(state.line)"), ec.replace("state.max", "len(state.line)")
     s = norm_stmt(s_expr)
     same_line = sl == el
     # P4: empty text
@@ -81,7 +83,7 @@ def classify_site(call: ast.Call, fn: ast.FunctionDef) -> tuple[bool, str]:
     if m and isinstance(s_expr, ast.Subscript) and isinstance(s_expr.slice, ast.Slice):
         base, lo, hi = norm_stmt(s_expr.value), s_expr.slice.lower, s_expr.slice.upper
         lo_s = norm_stmt(lo) if lo is not None else "0"
-        hi_s = norm_stmt(hi) if hi is not None else f"len({base})"
+        hi_s = (norm_stmt(hi) if hi is not None else f"len({base})").replace("state.max", "len(state.line)")
         if same_line and sc == lo_s and ec == hi_s:
             return True, "slice of its own span"
         return False, f"text is {base}[{lo_s}:{hi_s}] but the span is {sc}..{ec}"
@@ -124,6 +126,27 @@ def rule_l1(chk: Check, ix: Index):
             ok, why = classify_site(n, f.node)
             chk.require(ok, "L1-text-is-span", f"{q}:{kind}" + (f"@{i}" if i else ""), f"{f.rel}:{n.lineno}",
                         f"token text and coordinates disagree: {why}")
+    # the invariant the spans lean on: `max` is the length of the current line, re-established whenever the line changes
+    chk.count("L1-text-is-span")
+    bad = []
+    for q, f in sorted(ix.funcs.items()):
+        if f.rel != repo.TOKENIZE or f.cls != "TokenizerState":
+            continue
+        sets_line = [n for n in own_nodes(f.node) if isinstance(n, ast.Assign) and any(norm_stmt(t) == "self.line" for t in n.targets)]
+        sets_max = [norm_stmt(n) for n in own_nodes(f.node) if isinstance(n, ast.Assign) and any(norm_stmt(t) == "self.max" for t in n.targets)]
+        if sets_line and "self.max = len(self.line)" not in sets_max and f.node.name != "__init__":
+            bad.append(q)
+        if any(m not in ("self.max = len(self.line)", "self.max = 0") for m in sets_max):
+            bad.append(q + ":" + str(sets_max))
+    for q, f in sorted(ix.funcs.items()):
+        if f.rel == repo.TOKENIZE and f.cls != "TokenizerState":
+            for n in own_nodes(f.node):
+                if isinstance(n, (ast.Assign, ast.AugAssign)):
+                    tg = n.targets if isinstance(n, ast.Assign) else [n.target]
+                    if any(norm_stmt(t) in ("state.max", "state.line") for t in tg):
+                        bad.append(f"{q}:{norm_stmt(n)[:40]}")
+    chk.require(not bad, "L1-text-is-span", "TokenizerState:max-is-line-length", repo.TOKENIZE,
+                f"`max` must equal `len(line)` whenever a line is current (it bounds every scan and closes spans); broken by {bad[:2]}")
     chk.floor("L1-text-is-span", 12)
 
 
@@ -307,23 +330,41 @@ def rule_l4(chk: Check, ix: Index):
     body = ns.node.body
     # INDENT iff push
     chk.count("L4-block-structure")
-    ok = any(isinstance(n, ast.If) and norm_stmt(n.test) == "column > state.indents[-1]" and
-             norm_stmt(n.body[0]) == "state.indents.append(column)" and "Token.INDENT" in norm_stmt(n.body[1]) and len(n.body) == 2
-             for n in body)
+    POPS = ("state.indents = state.indents[:-1]", "state.indents.pop()", "del state.indents[-1]")
+    ok = False
+    for n in body:
+        if isinstance(n, ast.If) and norm_stmt(n.test) in ("column > state.indents[-1]", "state.indents[-1] < column"):
+            txt = [norm_stmt(x) for x in n.body]
+            ok = txt.count("state.indents.append(column)") == 1 and not n.orelse and \
+                sum(1 for x in ast.walk(n) if isinstance(x, ast.Yield) and "Token.INDENT" in norm_stmt(x)) == 1 and \
+                not any(t in txt for t in POPS)
     chk.require(ok, "L4-block-structure", "next_statement:INDENT", ns.where,
-                "an INDENT token must be emitted exactly when a level is pushed")
+                "an INDENT token must be emitted exactly when a level is pushed (one push of the measured column, one INDENT)")
     chk.count("L4-block-structure")
-    loops = [n for n in body if isinstance(n, ast.While) and norm_stmt(n.test) == "column < state.indents[-1]"]
-    ok = len(loops) == 1 and any(norm_stmt(s) == "state.indents = state.indents[:-1]" for s in loops[0].body) and \
-        sum(1 for s in ast.walk(loops[0]) if isinstance(s, ast.Yield) and "Token.DEDENT" in norm_stmt(s)) == 1
+    loops = [n for n in body if isinstance(n, ast.While) and norm_stmt(n.test) in ("column < state.indents[-1]", "state.indents[-1] > column")]
+    ok = len(loops) == 1 and sum(1 for x in loops[0].body if norm_stmt(x) in POPS) == 1 and \
+        sum(1 for x in ast.walk(loops[0]) if isinstance(x, ast.Yield) and "Token.DEDENT" in norm_stmt(x)) == 1
     chk.require(ok, "L4-block-structure", "next_statement:DEDENT", ns.where,
                 "one DEDENT token must be emitted per popped level")
+    # a dedent must land on one of the *open* levels: the consistency test consults the stack itself
+    chk.count("L4-block-structure")
+    guard_ok = False
+    if len(loops) == 1:
+        for g in loops[0].body:
+            if isinstance(g, ast.If) and any(isinstance(x, ast.Raise) for x in ast.walk(g)):
+                guard_ok = norm_stmt(g.test) in ("column not in state.indents", "not column in state.indents") and \
+                    loops[0].body.index(g) < next(i for i, x in enumerate(loops[0].body) if norm_stmt(x) in POPS) if ok else False
+    chk.require(guard_ok, "L4-block-structure", "next_statement:dedent-consistency", ns.where,
+                "before a level is popped, a column that is not one of the currently open levels must raise (the test must consult "
+                "the stack of open levels, not a record of columns ever used)")
     ne = ix.get("next_end_tokens")
     yields = [norm_stmt(n) for n in own_nodes(ne.node) if isinstance(n, ast.Yield)]
     chk.count("L4-block-structure")
     fors = [n for n in ne.node.body if isinstance(n, ast.For)]
-    ok = len(fors) == 1 and norm_stmt(fors[0].iter) == "state.indents[1:]" and sum("Token.ENDMARKER" in y for y in yields) == 1 and \
-        "Token.ENDMARKER" in norm_stmt(ne.node.body[-1]) and sum("Token.NEWLINE" in y for y in yields) == 1
+    PER_LEVEL = ("state.indents[1:]", "range(len(state.indents) - 1)", "range(1, len(state.indents))")
+    ok = len(fors) == 1 and norm_stmt(fors[0].iter) in PER_LEVEL and sum("Token.ENDMARKER" in y for y in yields) == 1 and \
+        "Token.ENDMARKER" in norm_stmt(ne.node.body[-1]) and sum("Token.NEWLINE" in y for y in yields) == 1 and \
+        sum(1 for x in ast.walk(fors[0]) if isinstance(x, ast.Yield) and "Token.DEDENT" in norm_stmt(x)) == 1
     chk.require(ok, "L4-block-structure", "next_end_tokens", ne.where,
                 "at end of input: at most one implicit NEWLINE, one DEDENT per open level, then exactly one ENDMARKER, last")
     tk = ix.get("_tokenize")
